@@ -39,6 +39,10 @@ def specs(ctx):
         out.append(s)
     for _ in range(ctx.pick(260, 3000)):
         out.append(corpus.rand_spec(rng, fams, nmax=8, allow_chain=True))
+    for s in out:       # a gradient scaler in part of the runs (the target is tested on the unscaled value)
+        if "chain" not in s and rng.random() < 0.35:
+            s["scaler"] = float(10 ** rng.uniform(-2, 2))
+            s["start"] = "interior"
     return out
 
 
